@@ -49,7 +49,7 @@
 
 From Coq Require Import PrimFloat.
 From Coq Require Import ZArith List Bool Reals Lra Permutation Sorted.
-From BZ Require Import Base.Ops Gen.Utils Gen.Point Gen.BBox Gen.Line Gen.Quad Gen.Cubic Hand.Bounds Hand.Split Proofs.C02 Proofs.C03.
+From BZ Require Import Base.Ops Gen.Utils Gen.Point Gen.BBox Gen.Line Gen.Quad Gen.Cubic Hand.Bounds Hand.Split Proofs.C02 Proofs.C03 Proofs.C03band.
 Import ListNotations.
 Open Scope R_scope.
 
@@ -146,6 +146,27 @@ Proof. exact monotone_hyps_example. Qed.
 Theorem C03_arch_pieces_exactly_monotone :
   exists g, split_walk ROps (SCubic arch) (sort_ ROps (seg_extremes ROps (SCubic arch))) = Ok g /\ forall p, In p g -> piece_mono_exact p.
 Proof. exact arch_pieces_exactly_monotone. Qed.
+Theorem C03_cpoly_piece_monotone_band :
+  forall A B C D E a b, in_band (3*A) (2*B) -> Rabs B <= 4 * E + Rabs A -> 0 <= a -> a <= b -> b <= 1 -> (forall r, a < r < b -> dcpoly A B C r = 0 -> r - a <= 1/100 + 2 * tiny \/ b - r <= 1/100 + 2 * tiny) -> mono_up_to (sigma E) (cpoly A B C D) a b.
+Proof. exact cpoly_piece_monotone_band. Qed.
+Theorem C03_piece_monotone_total :
+  forall s g, split_walk ROps s (sort_ ROps (seg_extremes ROps s)) = Ok g -> forall p, In p g -> piece_mono s p.
+Proof. exact piece_monotone_total. Qed.
+Theorem C03_addExtremes_monotone_total :
+  forall segs, NoDup segs -> exists out groups, addExtremes ROps segs = Ok out /\ out = concat groups /\ Forall2 (fun s g => refines_seg s g /\ forall p, In p g -> piece_mono s p) segs groups.
+Proof. exact addExtremes_monotone_total. Qed.
+Theorem C03_addExtremes_monotone_pieces_total :
+  forall segs out, NoDup segs -> addExtremes ROps segs = Ok out -> forall p, In p out -> exists s, In s segs /\ piece_mono s p.
+Proof. exact addExtremes_monotone_pieces_total. Qed.
+Theorem C03_band_arch_not_genuine :
+  ~ genuine band_arch.
+Proof. exact band_arch_not_genuine. Qed.
+Theorem C03_band_arch_pieces_monotone :
+  ~ genuine_seg (SCubic band_arch) /\ In (1/2) (seg_extremes ROps (SCubic band_arch)) /\ px (Quad_pointAtTime ROps (Cubic_derivative ROps band_arch) (1/2)) <> 0 /\ exists g, split_walk ROps (SCubic band_arch) (sort_ ROps (seg_extremes ROps (SCubic band_arch))) = Ok g /\ forall p, In p g -> piece_mono (SCubic band_arch) p.
+Proof. exact band_arch_pieces_monotone. Qed.
+Theorem C03_band_arch_path :
+  let segs := [SCubic band_arch; SLine (L2 (P (2/10000000000) 0) (P 0 0))] in NoDup segs /\ ~ (forall s, In s segs -> genuine_seg s) /\ exists out, addExtremes ROps segs = Ok out /\ forall p, In p out -> exists s, In s segs /\ piece_mono s p.
+Proof. exact band_arch_path. Qed.
 
 Print Assumptions C03_quad_findExtremes_exact.
 Print Assumptions C03_cubic_findExtremes_exact.
@@ -178,3 +199,10 @@ Print Assumptions C03_splitAtPoints_never_out_of_fuel.
 Print Assumptions C03_well_separated_example.
 Print Assumptions C03_monotone_hyps_example.
 Print Assumptions C03_arch_pieces_exactly_monotone.
+Print Assumptions C03_cpoly_piece_monotone_band.
+Print Assumptions C03_piece_monotone_total.
+Print Assumptions C03_addExtremes_monotone_total.
+Print Assumptions C03_addExtremes_monotone_pieces_total.
+Print Assumptions C03_band_arch_not_genuine.
+Print Assumptions C03_band_arch_pieces_monotone.
+Print Assumptions C03_band_arch_path.
